@@ -469,14 +469,16 @@ CWRAPPER_OUTPUT_TYPE integer_get_mpz(mpz_t a, const basic s)
 CWRAPPER_OUTPUT_TYPE rational_set_si(basic s, long a, long b)
 {
     CWRAPPER_BEGIN
-    basic_rcp(s) = SymEngine::Rational::from_mpq(rational_class(a, b));
+    basic_rcp(s) = SymEngine::Rational::from_two_ints(
+        *SymEngine::integer(a), *SymEngine::integer(b));
     CWRAPPER_END
 }
 
 CWRAPPER_OUTPUT_TYPE rational_set_ui(basic s, unsigned long a, unsigned long b)
 {
     CWRAPPER_BEGIN
-    basic_rcp(s) = SymEngine::Rational::from_mpq(rational_class(a, b));
+    basic_rcp(s) = SymEngine::Rational::from_two_ints(
+        *SymEngine::integer(a), *SymEngine::integer(b));
     CWRAPPER_END
 }
 
